@@ -463,10 +463,14 @@ def activity(isotope, mass, env, exposure, rest_times):
             # Column W: L/(L-nvs1+nvs2)
             W = lam/(lam-flux*initialXS*3600*1e-24+env.fluence*effectiveXS*3600*1e-24)
             # Column X: V#*[e(-S#)-e(U#)]
-            if abs(U) < 1e-10 and abs(V) < 1e-10:
-                precision_correction = W * (V-U+(V+U)/2)
+            # exp(-U)-exp(-V) is computed as exp(-min)*expm1(-|V-U|), with V-U taken
+            # from the same rate difference that enters W, so that no digits are lost
+            # when U and V are small or close.
+            x = (lam-flux*initialXS*3600*1e-24+env.fluence*effectiveXS*3600*1e-24)*exposure
+            if x >= 0:
+                precision_correction = W * exp(-U) * -expm1(-x)
             else:
-                precision_correction = W * (exp(-U)-exp(-V))
+                precision_correction = W * exp(-V) * expm1(x)
 
             activity = root*precision_correction
             if activity < 0:
